@@ -27,7 +27,8 @@ REQUIRED = ["totality.draw", "totality.render", "totality.rasterised", "types.ic
             "exactness.window-before-horizon", "exactness.window-after-horizon", "exactness.no-occupancy-at-begin",
             "lanelets.all", "lanelets.subset", "lanelets.empty-list", "propagation.root", "propagation.nested",
             "propagation.value-collision", "flag.draw_icon", "flag.show_label", "flag.draw_occupancies",
-            "flag.draw_signals", "flag.draw_continuous", "uncertain-state-drawn", "pp.draw_ids",
+            "flag.draw_signals", "flag.draw_continuous", "uncertain-state-drawn", "pp.draw_ids", "pp.draw_ids.with-an-id-that-is-not-in-the-set",
+            "draw_ids.set-at-the-top-level",
             "exactness.uncertain-initial-position", "exactness.parameters-passed-with-the-draw-call", "exactness.second-frame-of-a-reused-renderer",
             "totality.fan-lanelet-with-marked-short-bound",
             "trajectory-windows.layout-UUUU", "trajectory-windows.layout-EEEUUUEEEE", "trajectory-windows.mode-continuous",
@@ -158,6 +159,16 @@ def run(ctx):
                                                      else [None])
         if P.planning_problem_set.draw_ids is not None:
             ctx.feature("pp.draw_ids")
+        if i % 5 == 1:
+            # an id filter is a filter: ids that name nothing select nothing. Set at the top level, the lanelet ids reach the
+            # planning-problem group as well (both groups declare draw_ids)
+            P.planning_problem_set.draw_ids = list(P.planning_problem_set.draw_ids or pids[:1]) + [987654]
+            ctx.feature("pp.draw_ids.with-an-id-that-is-not-in-the-set")
+        elif i % 5 == 3 and lids:
+            top_ids = lids[: max(1, len(lids) // 2)]
+            P.draw_ids = top_ids
+            ctx.feature("draw_ids.set-at-the-top-level")
+            setting["top_level_draw_ids"] = list(top_ids)
         if i % 2 == 1:
             # "every draw-parameter setting": every boolean parameter of every nested group may deviate from its default
             import dataclasses as _dc
